@@ -22,7 +22,8 @@ RULE = ('histories of 100-600 DjangoCache calls (add, get, set, touch, delete, i
         'distinct_nontrivial = distinct (operation, timeout class, key state, outcome, backend parameters) cells')
 DISTINCT = ('cells',)
 REQUIRED = ('calls_judged', 'histories', 'value_errors_matched', 'expired_lookups', 'default_timeout_applied',
-            'version_moves', 'callable_defaults', 'forever_items_after_long_jump', 'lookups_with_expire_time_or_tag')
+            'version_moves', 'callable_defaults', 'forever_items_after_long_jump', 'lookups_with_expire_time_or_tag',
+            'calls_with_positional_version', 'calls_with_positional_arguments')
 ASSUMPTIONS = ('Django itself casts the TIMEOUT parameter to int (BaseCache.__init__), so a short integer TIMEOUT is used',
                'return values the contract leaves open (set, clear) are not compared',
                'DjangoCache(directory, params) is instantiated directly (needs no configured Django settings)')
@@ -185,6 +186,26 @@ class RefDjango:
         return len(gone)
 
 
+OMIT = object()
+
+
+def spelled(rng, res, method, params, **extensions):
+    """Call a backend method the way Django's BaseCache declares it: `params` lists (name, value) in the order of the
+    BaseCache signature (value OMIT: not given); a random prefix of the given ones is passed positionally, the rest by
+    keyword.  The library's own extra parameters (tag, expire_time, ...) come by keyword."""
+    cut = 0
+    while cut < len(params) and params[cut][1] is not OMIT:
+        cut += 1
+    p = rng.randrange(1, cut + 1)
+    pos = [v for _, v in params[:p]]
+    kw = {n: v for n, v in params[p:] if v is not OMIT}
+    if any(n == 'version' for n, _ in params[:p]):
+        res.count('calls_with_positional_version')
+    if p > 1:
+        res.count('calls_with_positional_arguments')
+    return method(*pos, **kw, **extensions)
+
+
 def history(dc, sc, res, rng, params, label):
     from diskcache import DjangoCache
     d = sc.new()
@@ -219,6 +240,13 @@ def history(dc, sc, res, rng, params, label):
             ver = gen.pick(rng, versions)
             t = gen.pick(rng, TIMEOUTS)
             vkw = {} if ver is None else {'version': ver}
+            V = OMIT if ver is None else ver
+            if t == 'omitted':
+                # leaving the timeout out and handing over Django's DEFAULT_TIMEOUT marker are the same request
+                from django.core.cache.backends.base import DEFAULT_TIMEOUT
+                TM = DEFAULT_TIMEOUT if rng.random() < 0.3 else OMIT
+            else:
+                TM = t
             op = gen.pick(rng, ['add', 'get', 'get', 'set', 'set', 'touch', 'delete', 'incr', 'decr', 'has_key', 'get_many',
                                 'set_many', 'delete_many', 'get_or_set', 'get_or_set_callable', 'incr_version',
                                 'decr_version', 'pop', 'contains', 'clear', 'evict', 'expire'])
@@ -231,52 +259,52 @@ def history(dc, sc, res, rng, params, label):
             if op == 'add':
                 tg = gen.pick(rng, [None, None, 'blue', 0])
                 tkw = {} if tg is None else {'tag': tg}
-                got, exp = call(lambda: dj.add(k, val, **tmo_kw(t), **tkw, **vkw)), ref.add(k, val, t, ver, tg)
+                got, exp = call(lambda: spelled(rng, res, dj.add, [('key', k), ('value', val), ('timeout', TM), ('version', V)], **tkw)), ref.add(k, val, t, ver, tg)
             elif op == 'get':
                 flags = {f: True for f in ('expire_time', 'tag') if rng.random() < 0.25}
-                got, exp = call(lambda: dj.get(k, 'DEF', **flags, **vkw)), ref.get(k, 'DEF', ver, **flags)
+                got, exp = call(lambda: spelled(rng, res, dj.get, [('key', k), ('default', 'DEF'), ('version', V)], **flags)), ref.get(k, 'DEF', ver, **flags)
                 res.count('lookups_with_expire_time_or_tag', 1 if flags else 0)
             elif op == 'set':
                 tg = gen.pick(rng, [None, None, 'blue', 't2', 0])
                 tkw = {} if tg is None else {'tag': tg}
-                got, exp = drop(call(lambda: dj.set(k, val, **tmo_kw(t), **tkw, **vkw))), ('skip', ref.set(k, val, t, ver, tg))
+                got, exp = drop(call(lambda: spelled(rng, res, dj.set, [('key', k), ('value', val), ('timeout', TM), ('version', V)], **tkw))), ('skip', ref.set(k, val, t, ver, tg))
             elif op == 'touch':
-                got, exp = call(lambda: dj.touch(k, **tmo_kw(t), **vkw)), ref.touch(k, t, ver)
+                got, exp = call(lambda: spelled(rng, res, dj.touch, [('key', k), ('timeout', TM), ('version', V)])), ref.touch(k, t, ver)
             elif op == 'delete':
-                got, exp = call(lambda: dj.delete(k, **vkw)), ref.delete(k, ver)
+                got, exp = call(lambda: spelled(rng, res, dj.delete, [('key', k), ('version', V)])), ref.delete(k, ver)
             elif op in ('incr', 'decr'):
                 if not numeric:
                     continue
                 delta = gen.pick(rng, [1, 2, 10])
-                got, exp = call(lambda: getattr(dj, op)(k, delta, **vkw)), getattr(ref, op)(k, delta, ver)
+                got, exp = call(lambda: spelled(rng, res, getattr(dj, op), [('key', k), ('delta', delta), ('version', V)])), getattr(ref, op)(k, delta, ver)
             elif op == 'has_key':
-                got, exp = call(lambda: dj.has_key(k, **vkw)), ref.has_key(k, ver)
+                got, exp = call(lambda: spelled(rng, res, dj.has_key, [('key', k), ('version', V)])), ref.has_key(k, ver)
             elif op == 'contains':
                 got, exp = call(lambda: k in dj), ref.has_key(k, None)
             elif op == 'get_many':
                 ks = rng.sample(keys, rng.randrange(1, 4))
-                got, exp = call(lambda: dj.get_many(ks, **vkw)), ref.get_many(ks, ver)
+                got, exp = call(lambda: spelled(rng, res, dj.get_many, [('keys', ks), ('version', V)])), ref.get_many(ks, ver)
             elif op == 'set_many':
                 data = {kk: (rng.randrange(50) if isinstance(kk, str) and kk.startswith('n') else 'm%d' % step) for kk in rng.sample(keys, rng.randrange(1, 4))}
-                got, exp = call(lambda: dj.set_many(data, **tmo_kw(t), **vkw)), ref.set_many(data, t, ver)
+                got, exp = call(lambda: spelled(rng, res, dj.set_many, [('data', data), ('timeout', TM), ('version', V)])), ref.set_many(data, t, ver)
             elif op == 'delete_many':
                 ks = rng.sample(keys, rng.randrange(1, 4))
-                got, exp = drop(call(lambda: dj.delete_many(ks, **vkw))), ('skip', ref.delete_many(ks, ver))
+                got, exp = drop(call(lambda: spelled(rng, res, dj.delete_many, [('keys', ks), ('version', V)]))), ('skip', ref.delete_many(ks, ver))
             elif op == 'get_or_set':
-                got, exp = call(lambda: dj.get_or_set(k, val, **tmo_kw(t), **vkw)), ref.get_or_set(k, val, t, ver)
+                got, exp = call(lambda: spelled(rng, res, dj.get_or_set, [('key', k), ('default', val), ('timeout', TM), ('version', V)])), ref.get_or_set(k, val, t, ver)
             elif op == 'get_or_set_callable':
                 res.count('callable_defaults')
-                got, exp = call(lambda: dj.get_or_set(k, lambda: val, **tmo_kw(t), **vkw)), ref.get_or_set(k, lambda: val, t, ver)
+                got, exp = call(lambda: spelled(rng, res, dj.get_or_set, [('key', k), ('default', lambda: val), ('timeout', TM), ('version', V)])), ref.get_or_set(k, lambda: val, t, ver)
             elif op in ('incr_version', 'decr_version'):
                 base = params['VERSION'] if ver is None else ver
                 if op == 'decr_version' and base <= 0:
                     continue
-                got, exp = call(lambda: getattr(dj, op)(k, **vkw)), getattr(ref, op)(k, 1, ver)
+                got, exp = call(lambda: spelled(rng, res, getattr(dj, op), [('key', k), ('delta', 1 if rng.random() < 0.4 else OMIT), ('version', V)])), getattr(ref, op)(k, 1, ver)
                 if exp is not ValueError:
                     res.count('version_moves')
             elif op == 'pop':
                 flags = {f: True for f in ('expire_time', 'tag') if rng.random() < 0.3}
-                got, exp = call(lambda: dj.pop(k, 'DEF', **flags, **vkw)), ref.pop(k, 'DEF', ver, **flags)
+                got, exp = call(lambda: spelled(rng, res, dj.pop, [('key', k), ('default', 'DEF'), ('version', V)], **flags)), ref.pop(k, 'DEF', ver, **flags)
                 res.count('lookups_with_expire_time_or_tag', 1 if flags else 0)
             elif op in ('evict', 'expire'):
                 # counts: expired items may already have been culled by earlier writes, so the number removed is at most
